@@ -304,6 +304,22 @@ CLAUSES = {
         _a("FRevoke", c="F", x="cur"), _a("FRevoke", c="F", x="new"),
         _a("Settle"),
         _a("ChildRemove", c="F", p="B"), _a("Settle")]},
+    # C03 / C02 / C16: the parent of such a child loses its resource class
+    # and gets a new one (under a new name): the child's certificates went
+    # with the class; a revocation request for a key certified under the
+    # vanished class, naming the class the child is told now, is confirmed
+    # without effect; the same key is certified again under the new class
+    "foreign-parent-class-renumbered": {"actions": [
+        _a("AddCa", c="B", p="A", res=["p1", "p2", "a1"]), _a("Settle"),
+        _a("AddCa", c="C", p="B", res=["p1"]), _a("Settle"),
+        _a("AddForeign", c="F", p="C", res=["p1"]),
+        _a("FIssue", c="F", x="cur", lim=[], nolim=True),
+        _a("FIssue", c="F", x="new", lim=["p1"], nolim=False), _a("Settle"),
+        _a("ChildRes", c="B", p="A", res=["p2", "a1"]), _a("Settle"),
+        _a("ChildRes", c="B", p="A", res=["p1", "p2", "a1"]), _a("Settle"),
+        _a("FRevoke", c="F", x="cur"),
+        _a("FIssue", c="F", x="new", lim=[], nolim=True), _a("Settle"),
+        _a("FRevoke", c="F", x="new"), _a("FList", c="F"), _a("Settle")]},
     # C02 / C19: a limit that is not within the offer is refused (the parent
     # reports the failure), also for a suspended child that calls in with
     # it -- which is unsuspended all the same
@@ -317,6 +333,20 @@ CLAUSES = {
         _a("ChildRes", c="F", p="B", res=["p1", "a1"]),
         _a("FIssue", c="F", x="new", lim=["a1"], nolim=False), _a("Settle"),
         _a("FRevoke", c="F", x="cur"), _a("Settle")]},
+    # C01 / C04: the new key's certificate holds more than the old key's
+    # (the entitlement grew after the roll began): at activation every
+    # configured authorisation the new certificate covers gets its object,
+    # also those the old key had none for
+    "roll-new-key-covers-more": {"actions": [
+        _a("AddCa", c="B", p="A", res=["p1", "a1"]), _a("Settle"),
+        _a("RoaAdd", c="B", r=["p1", "a1"]),
+        _a("AspaSet", c="B", cust="a1", prov=["a2"]),
+        _a("RtrAdd", c="B", r=["a1", "rtr:k1"]), _a("Settle"),
+        _a("ChildRes", c="B", p="A", res=["p2"]), _a("Settle"),
+        _a("RollInit", c="B"),
+        _a("ChildRes", c="B", p="A", res=["p1", "p2", "a1"]),
+        _a("Step", task="sync_B_with_parent_A"),
+        _a("RollActivate", c="B"), _a("Settle")]},
     # C04: the child rolls while its parent rolls
     "roll-parent-and-child": {"actions": [
         _a("AddCa", c="B", p="A", res=["p1", "p2"]), _a("Settle"),
@@ -434,7 +464,9 @@ def generate(chk, themes, num, depth, seed, theme_nums=None):
             # (the printing invariant fires for every successor that reaches
             # the target length: keep one behaviour per simulated trace by
             # cutting all of them at the same point)
-            acts = b["actions"][:depth - 6] + [{"a": "Settle"}]
+            # (deeper hierarchies need longer behaviours)
+            cut = {"foreign2": 46}.get(theme, depth)
+            acts = b["actions"][:cut - 6] + [{"a": "Settle"}]
             if theme == "tduring":
                 rnd = random.Random(seed * 7919 + len(acts) + i)
                 first = next((k for k, a in enumerate(acts)
